@@ -193,7 +193,10 @@ ASSUMPTIONS = ["pm.draw draws from the declared distributions; pymc's built-in N
                "F'(x) = 1/(x ln(b/a)) and the support/inverse-CDF facts are proved in lemmas/UniformLog.lean; exp/log/pow/sqrt facts used as axioms are in lemmas/Axioms.lean"]
 NOT_DECIDED = ["draws lie inside [a, b): this is lemmas/UniformLog.lean uniformlog_draw_in_support applied to the proved inverse-CDF form (not a z3 obligation)",
                "that numpy's uniform draws are uniform (then rng_fn's output has the log-uniform law by the inverse-CDF theorem)",
-               "pymc's own logp of Normal/Beta/angle priors"]
+               "pymc's own logp of Normal/Beta/angle priors",
+               "JokerPrior.sample's ln_prior clause is proved RELATIVE to the library contract `pm.logp(var, values).eval()` = var's log-density at values; pymc "
+               "re-draws unbound random parents on .eval(), so for the default K prior (whose scale depends on P and e) the value is not the density at the "
+               "row's own P, e: that is the open finding D15, shown by the twin - the contract pins down which terms are summed and where they are stored"]
 
 
 # ---- wiring of the default priors (effect analysis: which constructor, with which arguments, gets which unit) ------------------------------
@@ -272,3 +275,134 @@ for _c in linear:
     _c.cfg_mode = True
 CONTRACTS += [nonlinear] + linear
 HOOKS = {"inline": {"thejoker.prior_helpers.validate_poly_trend", "thejoker.prior_helpers.validate_sigma_v"}}
+
+
+# ---- JokerPrior.sample: which draw lands in which column with which unit, ln_prior = sum over the drawn parameters of their log-density at the
+# row's own value, every draw on the handed generator.  pymc's draw / logp are library models (assumed): pm.draw(vars, draws, random_seed)
+# returns one array per variable, in the order of `vars`; pm.logp(var, values).eval() is that variable's log-density evaluated at `values`.
+from jvc.values import PyDict as _PyDict, PyList as _PyList   # noqa: E402
+from . import c17 as _C17      # noqa: E402
+from .common import trace as _trace      # noqa: E402
+
+_LOGP = {}
+
+
+def _logp_fn(name):
+    if name not in _LOGP:
+        _LOGP[name] = z3.Function(f"logp_{name}", z3.RealSort(), z3.RealSort())
+    return _LOGP[name]
+
+
+@model("pymc.draw", "pm.draw", doc="pm.draw(vars, draws=n, random_seed=g): one array of n draws per variable, in the order of vars, made on generator g only")
+def _pm_draw(ex, path, args, kwargs, node, fn):
+    vars_ = args[0]
+    n = kwargs.get("draws")
+    g = kwargs.get("random_seed")
+    out = []
+    for v in vars_.items:
+        a = fresh_arr(f"drawn_{v.fields['name']}", 1, "real", [n])
+        a.drawn_for = v.fields["name"]
+        out.append(a)
+    _trace(path).append({"gen": g.ident if isinstance(g, Obj) else "<not a generator>", "kind": "pm.draw", "size": n, "value": None, "line": node.lineno})
+    path.ghost["drawn"] = {v.fields["name"]: a for v, a in zip(vars_.items, out)}
+    return _PyList(out, None, True)
+
+
+@model("pymc.logp", "pm.logp", doc="pm.logp(var, values): the log-density graph of var's declared distribution at values; .eval() evaluates it elementwise")
+def _pm_logp(ex, path, args, kwargs, node, fn):
+    var, vals = args[0], args[1]
+    f = _logp_fn(var.fields["name"])
+    arr = Arr(vals.shape, lambda k, f=f, vals=vals: f(vals.at(k)), "real", f"logp_{var.fields['name']}")
+    return Obj("LogpGraph", {"value": arr})
+
+
+@model("LogpGraph.eval")
+def _logp_eval(ex, path, args, kwargs, node, fn):
+    return args[0].fields["value"]
+
+
+_prev_sum = _L["numpy.sum"]
+
+
+@model("numpy.sum", doc="np.sum(list of equally long arrays, axis=0): their elementwise sum")
+def _sum_axis0(ex, path, args, kwargs, node, fn):
+    a = args[0]
+    if isinstance(a, _PyList) and a.tail is None and kwargs.get("axis") == 0 and a.items and all(isinstance(x, Arr) and x.ndim == 1 for x in a.items):
+        items = list(a.items)
+        return Arr(items[0].shape, lambda k, items=items: z3.Sum([to_z3(x.at(k), "real") for x in items]), "real", "sum_axis0")
+    return _prev_sum(ex, path, args, kwargs, node, fn)
+
+
+@model("logp_of_", doc="spec: log-density of the named parameter's declared distribution at x")
+def _logp_spec(ex, path, args, kwargs, node, fn):
+    return _logp_fn(args[0])(to_z3(args[1], "real"))
+
+
+@model("drawn_", doc="spec: the array pm.draw returned for the named parameter")
+def _drawn_spec(ex, path, args, kwargs, node, fn):
+    return path.ghost["drawn"][args[0]]
+
+
+def prior_self(poly_trend, n_offsets):
+    def build(ex, path, name):
+        nl = ["P", "e", "omega", "M0", "s"]
+        lin = ["K"] + [f"v{i}" for i in range(poly_trend)]
+        off = [f"dv0_{i}" for i in range(1, n_offsets + 1)]
+        dims = {"P": (1, 0, 0), "e": (0, 0, 0), "omega": (0, 0, 1), "M0": (0, 0, 1), "s": (-1, 1, 0), "K": (-1, 1, 0)}
+        pars = _PyDict()
+        for n_ in nl + lin + off:
+            dim = dims.get(n_, (-1 - int(n_[1:]), 1, 0) if n_.startswith("v") else (-1, 1, 0))
+            u_ = A.sym_unit(f"{n_}_unit", dim)
+            path.assume(*getattr(u_, "sym_facts", []))
+            v = Obj("TensorVariable", {"name": n_, "__tensor_unit__": u_}, ident=f"var_{n_}")
+            v.fields["__hasattr__"] = lambda a: a in ("__tensor_unit__", "name")
+            pars = pars.set(n_, v)
+        mk = lambda names: _PyDict([(n_, None) for n_ in names])
+        return Obj("JokerPrior", {"pars": pars, "_nonlinear_equiv_units": mk(nl), "_linear_equiv_units": mk(lin), "_v0_offsets_equiv_units": mk(off),
+                                  "par_names": _PyList(nl + lin + off), "poly_trend": poly_trend, "n_offsets": n_offsets,
+                                  "__qualclass__": "thejoker.prior.JokerPrior"}, ident="self")
+    return build
+
+
+def _res_samples_ctor(ex, path, bound, node):
+    o = _C17._res_js_ctor_any(ex, path, bound, node)
+    valid = _PyDict([(n_, None) for n_ in ["P", "e", "omega", "M0", "s", "K", "v0", "v1", "v2", "dv0_1", "dv0_2", "ln_prior", "ln_likelihood"]])
+    return o.with_field("_valid_units", valid)
+
+
+_samples_ctor = Contract("thejoker.samples.JokerSamples.__init__", PROPERTY, ensures={}, result=_res_samples_ctor)
+
+
+def _sample_contracts():
+    out = []
+    for pt_, no in ((1, 0), (2, 1)):
+        for gl in (False, True):
+            for lp in (False, True):
+                names = ["P", "e", "omega", "M0", "s"] + ((["K"] + [f"v{i}" for i in range(pt_)] + [f"dv0_{i}" for i in range(1, no + 1)]) if gl else [])
+                ens = {"columns-are-the-drawn-parameters-in-order": "list(result.tbl.colnames) == " + repr(names + (["ln_prior"] if lp else [])),
+                       "one-joint-draw-on-the-handed-generator-and-no-other": "n_rng_events() == 1 and rng_event(0).kind == 'pm.draw' and rng_event(0).gen == 'rng' "
+                                                                              "and rng_event(0).size == size",
+                       "metadata": f"result.tbl.meta['poly_trend'] == {pt_} and result.tbl.meta['n_offsets'] == {no}"}
+                for n_ in names:
+                    ens[f"column-{n_}-holds-its-own-draws-with-its-declared-unit"] = (
+                        f"result.tbl['{n_}'].unit is self.pars['{n_}'].__tensor_unit__ and "
+                        f"all(result.tbl['{n_}'].value[i] == drawn_('{n_}')[i] for i in range(size))")
+                if lp:
+                    ens["ln_prior-is-the-sum-of-the-log-densities-at-the-row's-own-values"] = (
+                        "all(result.tbl['ln_prior'].value[i] == " + " + ".join(f"logp_of_('{n_}', drawn_('{n_}')[i])" for n_ in names) + " for i in range(size))")
+                c = Contract("thejoker.prior.JokerPrior.sample", PROPERTY,
+                             params={"self": prior_self(pt_, no), "size": "pos", "rng": lambda ex, path, n: make_rng("rng"), "dtype": "none",
+                                     "kwargs": lambda ex, path, n: _PyDict()},
+                             cases=[{"_name": f"poly_trend={pt_},n_offsets={no},generate_linear={gl},return_logprobs={lp}",
+                                     "generate_linear": "true" if gl else "false", "return_logprobs": "true" if lp else "false"}],
+                             ensures=ens)
+                c.callees = {"thejoker.samples.JokerSamples": _samples_ctor, "thejoker.samples.JokerSamples.__init__": _samples_ctor,
+                             "JokerSamples.__setitem__": _C17.js_setitem, "thejoker.samples.JokerSamples.__setitem__": _C17.js_setitem}
+                out.append(c)
+    return out
+
+
+LIB.update({"pymc.draw": _pm_draw, "pm.draw": _pm_draw, "pymc.logp": _pm_logp, "pm.logp": _pm_logp, "LogpGraph.eval": _logp_eval, "numpy.sum": _sum_axis0,
+            "logp_of_": _logp_spec, "drawn_": _drawn_spec})
+sample = _sample_contracts()
+CONTRACTS += sample
